@@ -629,7 +629,11 @@ pub fn check_main(p: &dyn Prop, tier: Tier) -> i32 {
         exit = 1;
     }
     let nviol = new_violations.len() as u64 + if exit == 1 && new_violations.is_empty() { 1 } else { 0 };
-    write_evidence(p, tier, root, &lines, &stats, &digests, &nontrivial_digests, &states, sim_ms, &samples, nviol, t0, json!({"known_findings_hit": known_hit, "determinism_rechecked": recheck.len().min(12), "total_runs": total, "extra": extra}));
+    // one digest over the transcripts of all runs in index order: two batches of the same seed and tree must agree on it,
+    // whatever the number of worker processes (tools/determinism_sweep.sh)
+    let batch_digest = sha_hex(&lines.values().map(|l| l["transcript"].as_str().unwrap_or("")).collect::<Vec<_>>().join("|"));
+    println!("[{}] batch transcript digest {}", p.id(), &batch_digest[..16]);
+    write_evidence(p, tier, root, &lines, &stats, &digests, &nontrivial_digests, &states, sim_ms, &samples, nviol, t0, json!({"known_findings_hit": known_hit, "determinism_rechecked": recheck.len().min(12), "total_runs": total, "batch_transcript_digest": batch_digest, "extra": extra}));
     println!(
         "[{}] runs={} distinct={} nontrivial_distinct={} violations={} known={} wall={:.1}s",
         p.id(),
